@@ -156,7 +156,7 @@ Theorem step_op_refines st o :
   fst (step_op st o) = OK -> spec_step_op st o = (SOk, snd (step_op st o)).
 Proof.
   unfold invb. intros I C. apply andb_prop in I as [R I].
-  destruct o as [s l|id s args|r id k v|id f g v|id k|id v|ko id s args|pid id|pid v]; simpl.
+  destruct o as [s l|id s args|r id k v|id f g v|id k|id v|ko id s args|pid id|pid v|s]; simpl.
   - (* Declare *)
     destruct (declare st s l) as [oc st']. simpl. intros ->. auto.
   - (* Construct *)
@@ -223,6 +223,8 @@ Proof.
     destruct (alookup id0 (st_store st)) as [ij|] eqn:AJ; [|simpl; discriminate].
     destruct (ptr_matches st s g ij); [|simpl; discriminate]. simpl. intros _.
     simpl in C. rewrite P, A, AJ in C. apply andb_prop in C as [E C]. rewrite E, C. auto.
+  - (* DeclareBad *)
+    unfold declare_bad. simpl. discriminate.
 Qed.
 
 (* the statement that carries the property from the model of the code to the specification *)
